@@ -14,18 +14,18 @@ open Verify Stack
 variable {H : Type} {ops : HeapOps H}
 
 /-- entry code runs in the entry frame only -/
-theorem Frames.entry_nil {T : Typing} {e : Nat} {f : Nat → VCell} {top bp l o : Nat} {K : List FDesc}
-    (h : Frames T e f top bp l o K) {t : LamTy} (ht : T l = some t) (hent : t.entry = true) : K = [] := by
+theorem Frames.entry_nil {V : VCell → Prop} {T : Typing} {e : Nat} {f : Nat → VCell} {top bp l o : Nat} {K : List FDesc}
+    (h : Frames V T e f top bp l o K) {t : LamTy} (ht : T l = some t) (hent : t.entry = true) : K = [] := by
   cases h with
   | entry => rfl
   | frame h1 h2 => rw [h1] at ht; cases ht; rw [h2] at hent; cases hent
   | pre h1 h2 => rw [h1] at ht; cases ht; rw [h2] at hent; cases hent
 
 /-- the innermost frame of a state that is past its prologue starts at or below `bp + 1` -/
-theorem Frames.head_base_body {T : Typing} {e : Nat} {f : Nat → VCell} {top bp l o : Nat} {d : FDesc}
-    {K : List FDesc} (h : Frames T e f top bp l o (d :: K)) {t : LamTy} (ht : T l = some t) {st : AState}
+theorem Frames.head_base_body {V : VCell → Prop} {T : Typing} {e : Nat} {f : Nat → VCell} {top bp l o : Nat} {d : FDesc}
+    {K : List FDesc} (h : Frames V T e f top bp l o (d :: K)) {t : LamTy} (ht : T l = some t) {st : AState}
     (hst : stateAt t.tm o = some st) (hne : st ≠ .pre) :
-    t.entry = false ∧ d.base ≤ bp + 1 ∧ MatchSt st f top (bp + 4) := by
+    t.entry = false ∧ d.base ≤ bp + 1 ∧ MatchSt V st f top (bp + 4) := by
   have hent : t.entry = false := by
     cases he : t.entry with
     | false => rfl
@@ -38,8 +38,8 @@ theorem Frames.head_base_body {T : Typing} {e : Nat} {f : Nat → VCell} {top bp
   omega
 
 /-- the innermost frame of a state in a prologue starts at the first argument CALL/TCALL left -/
-theorem Frames.head_base_pre {T : Typing} {e : Nat} {f : Nat → VCell} {top bp l o : Nat} {d : FDesc}
-    {K : List FDesc} (h : Frames T e f top bp l o (d :: K)) {t : LamTy} (ht : T l = some t)
+theorem Frames.head_base_pre {V : VCell → Prop} {T : Typing} {e : Nat} {f : Nat → VCell} {top bp l o : Nat} {d : FDesc}
+    {K : List FDesc} (h : Frames V T e f top bp l o (d :: K)) {t : LamTy} (ht : T l = some t)
     (hst : stateAt t.tm o = some .pre) :
     ∃ n, n + 3 ≤ top ∧ f (top - 2) = .argc n ∧ d.base = top - 2 - n := by
   obtain ⟨_, n, ep', l', o', K', hn, _, _, hA, _, hK⟩ := h.inv_pre ht hst
@@ -167,7 +167,7 @@ theorem step_below {cl : CodeLaws ops} {s s' : St H} {d : FDesc} {K : List FDesc
   obtain ⟨t, st, ai, e1⟩ := hw.instr hr
   have hfr := hw.wf.frames
   -- body / call states: `d.base ≤ bp + 1`, temporaries above `bp + 4`
-  have body : st ≠ .pre → d.base ≤ s.bp + 1 ∧ s.bp + 4 ≤ s.stack.sp ∧ MatchSt st s.stack.cellAt s.stack.sp (s.bp + 4) := by
+  have body : st ≠ .pre → d.base ≤ s.bp + 1 ∧ s.bp + 4 ≤ s.stack.sp ∧ MatchSt cl.Val st s.stack.cellAt s.stack.sp (s.bp + 4) := by
     intro hne
     obtain ⟨_, h2, h3⟩ := hfr.head_base_body ai.ht ai.hst hne
     exact ⟨h2, h3.lo_le, h3⟩
@@ -196,7 +196,7 @@ theorem step_below {cl : CodeLaws ops} {s s' : St H} {d : FDesc} {K : List FDesc
     intro i _; rw [hst]
   | mov =>
     cases st <;> simp only [checkOp, Bool.and_eq_true] at chk <;> first | exact absurd chk Bool.false_ne_true | skip
-    obtain ⟨c1, _⟩ := chk
+    obtain ⟨⟨_, c1⟩, _⟩ := chk
     obtain ⟨⟨v, s2⟩, hlo, hs0⟩ := bind_inv hs0
     obtain ⟨s3, hso, hs0⟩ := bind_inv hs0
     cases hs0
@@ -207,7 +207,7 @@ theorem step_below {cl : CodeLaws ops} {s s' : St H} {d : FDesc} {K : List FDesc
     intro i _; rw [q1]
   | movImm =>
     cases st <;> simp only [checkOp, Bool.and_eq_true] at chk <;> first | exact absurd chk Bool.false_ne_true | skip
-    obtain ⟨c1, _⟩ := chk
+    obtain ⟨⟨_, c1⟩, _⟩ := chk
     obtain ⟨⟨v, s2⟩, hro, hs0⟩ := bind_inv hs0
     obtain ⟨s3, hso, hs0⟩ := bind_inv hs0
     cases hs0
